@@ -104,6 +104,12 @@ CLAIMED.update({
   note="Not decided: timing ('no earlier than t, promptly after t'), the three-way select between mailbox, timer and wake signal, the spin/backoff capture protocol under real interleavings, detection of a closed connection while blocked (the socket is only read between commands) - these are scheduling/liveness properties outside this technique. Negative timeouts are not rejected by the handlers (they time out immediately) - noted, not covered by a contract.",
   design="DESIGN.md section 6 C12"),
 })
+CLAIMED.update({
+ "C20": dict(
+  text="Deductive proof of the sequential effects of termination on the real code: RequestTermination closes the listener exactly once (iff one is open), cancels the lane exactly once, asks every connection this emulator accepted to close (ghost counter = number of tracked connections, each marked closing, loop invariant) and forgets them, so a second call finds nothing to do; trackConnection closes a connection that arrives after termination was requested at once and otherwise records it as the last tracked connection, dropping only connections that were already told to close. On the pinned tree connections were never closed on termination (an old connection could still GET and SET after Close - demonstrated on the real server) ; repaired.",
+  note="Not decided (outside this technique): 'returns within bounded time' (liveness of wg.Wait, goroutines blocked in Accept/select), release of the TCP port by the kernel and immediate re-bind, goroutine exit of connection handlers and of commands blocked with timeout 0, os.Exit on bind failure, isolation of several emulators in one process (the client registry, INFO counters and client ids are package globals - CLIENT LIST/KILL/UNBLOCK reach across instances; noted, not repaired). wg.Add/Done balance is not checked.",
+  design="DESIGN.md section 6 C20"),
+})
 NOT_BUILT = {}
 ALL = ["C%02d" % i for i in range(1, 21)]
 
